@@ -15,8 +15,8 @@ from c05 import BLK_T, defbytes, neight, rnd_f64, case_label
 
 PROP = "C06"
 ENG_NAME = {"i": "interp-shim", "0": "gen-O0", "1": "gen-O1", "2": "gen-O2", "3": "gen-O3", "L": "lazy-gen(first call)", "l": "lazy-gen(second call)"}
-TIERS = {"quick": {"engines": "i 2 L", "bodies": 1, "stride": 1, "res_stride": 3},
-         "thorough": {"engines": "i 0 1 2 3 M", "bodies": 2, "stride": 1, "res_stride": 1}}
+TIERS = {"quick": {"engines": "i 2 L", "bodies": 1, "stride": 1, "res_stride": 3, "sim_stride": 1},
+         "thorough": {"engines": "i 0 1 2 3 M", "bodies": 2, "stride": 1, "res_stride": 1, "sim_stride": 2}}
 M32 = 281470681808895          # 0x0000FFFF0000FFFF
 NLIVE_I, NLIVE_D = 20, 8
 ASZ = [1, 8, 24, 100, 1000, 4104, 16, 40]
@@ -239,6 +239,8 @@ def plan(cases, tier, rng0):
             continue
         if c["tag"] == "res" and (ci // 1) % T["res_stride"]:
             continue        # quick tier: every res_stride-th result list (all of them in the thorough tier and in C05)
+        if c["tag"] == "sim" and ci % T["sim_stride"]:
+            continue
         if c["nfix"] == 0:
             continue        # MIR defines no variadic *function* without a named parameter (soundness rule 1)
         restypes = [r["t"] for r in c["res"]] if c["tag"] in ("res", "sim") else reslists[(ci * 7) % len(reslists)]
